@@ -53,6 +53,9 @@ class ParserEffects:
             return (isinstance(a, ast.Dict) and not a.keys) or (isinstance(a, ast.Call) and isinstance(a.func, ast.Name) and a.func.id == 'dict' and not a.args and not a.keywords)
         live = [ast.unparse(c) for c in ex if c.keywords or not all(throwaway(a) for a in c.args[1:])]
         ctx.prove(z3.BoolVal(not live), 'name_bindings_of_executed_statement_text_cannot_reach_a_live_namespace', 'effects', assume_after=False, note='; '.join(live))
+        decorated = [ast.unparse(d) for f in (pm, bm) for d in getattr(f.node, 'decorator_list', [])]
+        ctx.prove(z3.BoolVal(not decorated), 'parse_model_and_build_model_are_plain_functions_(no_memoising_decorator_between_caller_and_result)', 'effects', assume_after=False,
+                  note='; '.join(decorated))
         # handlers around that exec: which exception classes can escape
         escaping = True
         for n in ast.walk(pm.node):
